@@ -38,20 +38,21 @@ func vRefGlob(pattern, s string) (matched, bad bool) {
 // with the real url.Parse and filepath.Match interpreted from their SSA. The oracle knows the true origin host by
 // construction. (Concrete enumeration inside the engine: it complements C12.origin, where url.Parse is uninterpreted.)
 func verifC12_grammar() {
-	reqHosts := []string{"example.com", "Example.COM", "example.com:8080", "app.example.com"}
+	// (the request Host is compared literally: glob metacharacters in it mean nothing, and an IPv6 literal is just a host)
+	reqHosts := []string{"example.com", "Example.COM", "example.com:8080", "*", "[::1]:8080", "app.example.com", "example.com:*", "e?il.com"}
 	schemes := []string{"https://", "http://", "HTTPS://"}
 	userinfos := []string{"", "user@", "example.com@", "example.com:pw@"}
-	ohosts := []string{"example.com", "EXAMPLE.com", "evil.com", "example.com.evil.com", "evilexample.com", "app.example.com"}
+	ohosts := []string{"example.com", "EXAMPLE.com", "evil.com", "example.com.evil.com", "evilexample.com", "app.example.com", "[::1]"}
 	ports := []string{"", ":8080", ":443"}
 	tails := []string{"", "/example.com", "?example.com", "#example.com", "?.example.com", "/?x=.example.com"}
 	patternSets := [][]string{nil, {"*.example.com"}, {"example.com"}, {"https://*.example.com"}, {"evil.*"}, {"[bad", "evil.com"}, {"EXAMPLE.com:*"}}
 
 	if vParam("small", 0) == 1 {
 		// quick tier: a sub-grammar that still contains every trick once
-		reqHosts = reqHosts[:3]
+		reqHosts = reqHosts[:5]
 		schemes = schemes[:1]
 		userinfos = []string{"", "example.com@"}
-		ohosts = []string{"example.com", "evil.com", "example.com.evil.com", "app.example.com"}
+		ohosts = []string{"example.com", "evil.com", "example.com.evil.com", "app.example.com", "[::1]"}
 		ports = ports[:2]
 		tails = []string{"", "?.example.com", "/example.com"}
 	}
